@@ -448,6 +448,8 @@ structure RecInv (s : St) (r : Nat) (x : Rec) : Prop where
   k5 : ∀ n, x.rctx = some n → ∃ y, s.insts[n]? = some y ∧ y.rid = r
   /-- a recorded failure belongs to an instance that has exited -/
   kx : (x.err ≠ none ∨ x.exited = true) → ∀ n, x.rctx = some n → ∃ y, s.insts[n]? = some y ∧ y.st = .closed
+  /-- success is recorded together with the exit -/
+  ks : x.success = true → x.exited = true
 
 def AllRec (s : St) : Prop := ∀ r x, s.recs[r]? = some x → RecInv s r x
 
@@ -487,7 +489,7 @@ theorem InstsExt.len {s s' : St} (h : InstsExt s s') : s.insts.length ≤ s'.ins
   · exact hge
 
 theorem RecInv.mono {s s' : St} {r : Nat} {x : Rec} (h : RecInv s r x) (he : InstsExt s s') : RecInv s' r x := by
-  refine ⟨h.j1, h.k2, ?_, ?_⟩
+  refine ⟨h.j1, h.k2, ?_, ?_, h.ks⟩
   · intro n hn
     obtain ⟨y, hy, hr⟩ := h.k5 n hn
     obtain ⟨y', h1, h2⟩ := he n y hy
@@ -533,22 +535,22 @@ theorem AllRec.set {s : St} (h : AllRec s) (r : Nat) (y : Rec) (hy : RecInv s r 
   by_cases hq : r = q
   · subst hq
     by_cases hlt : r < s.recs.length
-    · simp [hlt] at hx; subst hx; exact ⟨hy.j1, hy.k2, hy.k5, hy.kx⟩
+    · simp [hlt] at hx; subst hx; exact ⟨hy.j1, hy.k2, hy.k5, hy.kx, hy.ks⟩
     · simp [hlt] at hx
-  · simp [hq] at hx; have := h q x hx; exact ⟨this.j1, this.k2, this.k5, this.kx⟩
+  · simp [hq] at hx; have := h q x hx; exact ⟨this.j1, this.k2, this.k5, this.kx, this.ks⟩
 
 theorem AllRec.append {s : St} (h : AllRec s) (y : Rec) (hy : RecInv s s.recs.length y) :
     AllRec { s with recs := s.recs ++ [y] } := by
   intro q x hx
   by_cases hlt : q < s.recs.length
-  · rw [List.getElem?_append_left hlt] at hx; have := h q x hx; exact ⟨this.j1, this.k2, this.k5, this.kx⟩
+  · rw [List.getElem?_append_left hlt] at hx; have := h q x hx; exact ⟨this.j1, this.k2, this.k5, this.kx, this.ks⟩
   · simp only [List.getElem?_append, hlt, if_false] at hx
     have hq : q = s.recs.length := by
       rcases Nat.lt_or_ge (q - s.recs.length) 1 with h1 | h1
       · omega
       · have : [y][q - s.recs.length]? = none := List.getElem?_eq_none (by simpa using h1)
         rw [this] at hx; cases hx
-    subst hq; simp at hx; subst hx; exact ⟨hy.j1, hy.k2, hy.k5, hy.kx⟩
+    subst hq; simp at hx; subst hx; exact ⟨hy.j1, hy.k2, hy.k5, hy.kx, hy.ks⟩
 
 theorem allRec_stopRec {s : St} (h : AllRec s) (r : Nat) : AllRec (stopRec s r) := by
   unfold stopRec
@@ -561,7 +563,7 @@ theorem allRec_stopRec {s : St} (h : AllRec s) (r : Nat) : AllRec (stopRec s r) 
     have h1 : AllRec (killTimer (cancelOpt s x.cancelOf) x.retry) := h.of_eq (by simp) he
     apply h1.set
     exact ⟨by intro n hn; simp [Rec.stopped] at hn, by intro n hn; simp [Rec.stopped] at hn,
-           by intro n hn; simp [Rec.stopped] at hn, by intro _ n hn; simp [Rec.stopped] at hn⟩
+           by intro n hn; simp [Rec.stopped] at hn, by intro _ n hn; simp [Rec.stopped] at hn, (h r x hx).ks⟩
   · exact h
 
 theorem instsExt_stopRec (s : St) (r : Nat) : InstsExt s (stopRec s r) := by
@@ -586,7 +588,7 @@ theorem allRec_startRec {s : St} (h : AllRec s) (r c : Nat) (w : Option Nat) (fo
       have h2 : AllRec { (stopRec s r) with insts := (stopRec s r).insts ++
           [{ rid := r, root := c, waitOn := w, born := s.croots.contains c }] } := h1.of_eq rfl he
       apply h2.set
-      refine ⟨?_, ?_, ?_, ?_⟩
+      refine ⟨?_, ?_, ?_, ?_, by intro h0; simp at h0⟩
       · intro n hn; left; simpa using hn
       · intro n hn; simpa using hn
       · intro n hn
@@ -628,11 +630,17 @@ theorem csok_set (s : St) (r : Nat) (x y : Rec) (hx : s.recs[r]? = some x)
     (h1 : y.rctx = x.rctx)
     (h2 : y.cancelOf = x.cancelOf ∨ y.cancelOf = none)
     (h3 : y.exitedCh = x.exitedCh ∨ y.exitedCh = none)
-    (h4 : (y.err = x.err ∧ y.exited = x.exited) ∨ ∀ n, y.rctx = some n → ∃ z, s.insts[n]? = some z ∧ z.st = .closed) :
+    (h4 : (y.err = x.err ∧ y.exited = x.exited) ∨ ∀ n, y.rctx = some n → ∃ z, s.insts[n]? = some z ∧ z.st = .closed)
+    (h5 : (y.success = x.success ∧ y.exited = x.exited) ∨ y.exited = true := by exact Or.inl ⟨rfl, rfl⟩) :
     CSOK s { s with recs := s.recs.set r y } := by
   refine ⟨InstsExt.of_eq rfl, fun h => h.set r y ?_⟩
   have hr := h r x hx
-  refine ⟨?_, ?_, ?_, ?_⟩
+  refine ⟨?_, ?_, ?_, ?_, ?_⟩
+  rotate_left 4
+  · intro hs
+    rcases h5 with e | e
+    · rw [e.2]; exact hr.ks (e.1 ▸ hs)
+    · exact e
   rotate_left 3
   · intro he n hn
     rcases h4 with e | e
@@ -698,11 +706,12 @@ theorem csok_restartCS (s : St) : CSOK s (restartCS s).1 := by
         refine CSOK.trans ?_ (csok_startRec _ r _ x.exitedCh true)
         simpa using h2
 
-theorem csok_appendRec (s : St) (y : Rec) (h1 : y.rctx = none) (h2 : y.cancelOf = none) (rt : Option Nat) :
+theorem csok_appendRec (s : St) (y : Rec) (h1 : y.rctx = none) (h2 : y.cancelOf = none) (rt : Option Nat)
+    (h3 : y.success = false := by rfl) :
     CSOK s { s with recs := s.recs ++ [y], routine := rt } := by
   refine ⟨InstsExt.of_eq rfl, fun h => ?_⟩
   have hy : RecInv s s.recs.length y := by
-    refine ⟨?_, ?_, ?_, ?_⟩
+    refine ⟨?_, ?_, ?_, ?_, by intro h0; rw [h3] at h0; cases h0⟩
     · intro n hn; rw [h1] at hn; cases hn
     · intro n hn; rw [h2] at hn; cases hn
     · intro n hn; rw [h1] at hn; cases hn
@@ -920,7 +929,7 @@ theorem record_core (s S : St) (n : Nat) (x : Inst) (r y : Rec)
     (hS : CSOK s S) (hpr : proj S = proj s) (hrt : S.routine = s.routine) (hrecs : S.recs = s.recs)
     (hclr : S.cleared = s.cleared)
     (hr : s.recs[x.rid]? = some r) (hrc : r.rctx = some n)
-    (hy1 : y.rctx = r.rctx) (hy2 : y.cancelOf = r.cancelOf) (hy3 : y.exitedCh = none)
+    (hy1 : y.rctx = r.rctx) (hy2 : y.cancelOf = r.cancelOf) (hy3 : y.exitedCh = none) (hy4 : y.exited = true)
     (S' : St) (hS'1 : S'.insts = S.insts) (hS'2 : S'.recs = S.recs.set x.rid y) (hS'3 : S'.routine = S.routine)
     (hS'4 : S'.cleared = S.cleared) :
     CSOK s S' ∧ (AllRec s → Steps (proj s) (proj S')) := by
@@ -929,7 +938,7 @@ theorem record_core (s S : St) (n : Nat) (x : Inst) (r y : Rec)
     obtain ⟨z, hz, hle⟩ := hS.1 n x hx
     exact ⟨z, hz, by rw [hle.2.2.2.1]; exact hc⟩
   have hset := csok_set S x.rid r y hr' hy1 (Or.inl hy2) (Or.inr hy3)
-    (Or.inr (by intro m hm; rw [hy1, hrc] at hm; cases hm; exact hxS))
+    (Or.inr (by intro m hm; rw [hy1, hrc] at hm; cases hm; exact hxS)) (Or.inr hy4)
   have hfin : CSOK { S with recs := S.recs.set x.rid y } S' := CSOK.of_eq hS'2 hS'1
   refine ⟨(hS.trans hset).trans hfin, fun ha => ?_⟩
   -- projection: the instances are unchanged; `last` is cleared iff this record is the container's
@@ -993,14 +1002,14 @@ theorem recordCS_ok (s s' : St) (cf : Cfg) (n : Nat) (x : Inst) (dur : Bool)
             { r with err := x.out, success := x.out.isNone, exited := true, exitedCh := none,
                      retry := if dur = true then some (killTimer (setInst s n { x with recorded := true }) r.retry).timers.length else none }
             hx hc
-            (h1.trans (csok_killTimer _ _)) ?_ (by simp [setInst]) (by simp [setInst]) (by simp [setInst]) hr hrc rfl rfl rfl _ rfl rfl rfl rfl
+            (h1.trans (csok_killTimer _ _)) ?_ (by simp [setInst]) (by simp [setInst]) (by simp [setInst]) hr hrc rfl rfl rfl rfl _ rfl rfl rfl rfl
           simp only [proj, killTimer_insts, lastOf, killTimer_routine, killTimer_recs, killTimer_cleared]
           exact hp1
         · have hret' : cf.retry = false := by simpa using hret
           simp only [hret', Bool.false_eq_true, if_false]
           refine record_core s (setInst s n { x with recorded := true }) n x r
             { r with err := x.out, success := x.out.isNone, exited := true, exitedCh := none } hx hc
-            h1 hp1 rfl rfl rfl hr hrc rfl rfl rfl _ rfl rfl rfl rfl
+            h1 hp1 rfl rfl rfl hr hrc rfl rfl rfl rfl _ rfl rfl rfl rfl
     · split at h
       · cases h
       · simp only [Option.some.injEq] at h; subst h
@@ -1011,7 +1020,7 @@ theorem allRec_setInst {s : St} (h : AllRec s) (n : Nat) (x y : Inst) (hx : s.in
   intro r z hz
   have hz' : s.recs[r]? = some z := hz
   have g := h r z hz'
-  refine ⟨g.j1, g.k2, ?_, ?_⟩
+  refine ⟨g.j1, g.k2, ?_, ?_, g.ks⟩
   · intro m hm
     obtain ⟨w, hw, hwr⟩ := g.k5 m hm
     by_cases hnm : n = m
